@@ -1,7 +1,7 @@
 (* Correspondence cases for C08: each constructor carries an input and what
    the real delphin.tsdb / delphin.itsdb returned for it. *)
 From Coq Require Import List NArith ZArith Bool.
-From PyD Require Export Base.Str Base.Dec Base.PySlice Model.Tsdb Corr.Common.
+From PyD Require Export Base.Str Base.Dec Base.PySlice Model.Tsdb Model.TsdbDate Corr.Common.
 Import ListNotations.
 
 Definition value_eqb (a b : value) : bool :=
@@ -37,7 +37,23 @@ Inductive case :=
 | CRowIter (fs : list field) (vs : list value) (out : option (list value))
 | CRowInt (fs : list field) (vs : list value) (i : Z) (out : option value)
 | CRowSlice (fs : list field) (vs : list value) (s : pyslice) (out : option (list value))
-| CRowName (fs : list field) (vs : list value) (n : str) (out : option value).
+| CRowName (fs : list field) (vs : list value) (n : str) (out : option value)
+| CDate (s : str) (out : dres)
+| CFmtDate (t : dt) (out : str).
+
+Definition dt_eqb (a b : dt) : bool :=
+  (dy a =? dy b)%N && (dmo a =? dmo b)%N && (dd a =? dd b)%N &&
+  (dh a =? dh b)%N && (dmi a =? dmi b)%N && (TsdbDate.ds a =? TsdbDate.ds b)%N.
+
+(* the value of a "now" date is the clock's: only its kind is compared *)
+Definition dres_eqb (a b : dres) : bool :=
+  match a, b with
+  | DNone, DNone => true
+  | DNow, DNow => true
+  | DKeyError, DKeyError => true
+  | DSome x, DSome y => dt_eqb x y
+  | _, _ => false
+  end.
 
 Definition with_row (fs : list field) (vs : list value) {A} (f : row -> option A) : option A :=
   match mk_row fs vs with Some r => f r | None => None end.
@@ -61,4 +77,6 @@ Definition check_case (c : case) : bool :=
         (with_row fs vs (fun r => bind_casts (row_getitem_slice r s))) out
   | CRowName fs vs n out =>
       option_eqb value_eqb (with_row fs vs (fun r => bind_cast (row_getitem_name r n))) out
+  | CDate s out => dres_eqb (parse_datetime s) out
+  | CFmtDate t out => str_eqb (format_date t) out
   end.
